@@ -61,6 +61,40 @@ CHECKS = {
             "OverflowError/ZeroDivisionError/complex pow are searched for by the oracle, not proved absent; libm agreement CPython/Lean Float; "
             "random.gauss(mu,sigma)=mu+z*sigma; the two individuals of a crossover are distinct objects.",
             "Lean 4 proof over a RealLike-polymorphic model + forced-tape differential correspondence (Float) + oracle"),
+    "C04": ("partial",
+            "Quadratic sort: full Lean proof (C04.dominance_strict_partial_order, exists_nondominated, peel_partition, peel_front_iff_depth, "
+            "sortStd_eq_peel, sortStd_front_iff_depth, sortStd_every_individual_once, sortStd_subperm, sortStd_equal_fitness_same_front, sortStd_zero, "
+            "sortStd_first_front_only, leading_spec) that the model of sortNondominated returns exactly the Pareto ranking, the leading fronts needed to "
+            "reach k, every input once. Divide-and-conquer sort: certificate theorem C04.ranking_unique / checkCert_correct / checkRanking_sound (a rank "
+            "function satisfying two local conditions IS the dominance depth) and the proved checker is run on every output of the real "
+            "sortLogNondominated; of its transcription (model B) only partition/truncation are proved (sortLog_partition_partial, sortLog_truncation_partial); "
+            "sortLog_terminates_Statement / sortLog_eq_sortStd_Statement stay unproved defs. Both procedures are diffed against the models on all populations "
+            "n<=4 over {0,1,2}^m (m<=3), every k, both flags, plus random n<=40, m<=6; brute-force peeling is the oracle.",
+            TB + "partial: the algorithmic correctness of the log-time sort is certified per run by a proved-sound checker, not proved for all inputs; "
+            "exact regime (integer/dyadic fitnesses); fronts compared as sorted input indices (dict iteration order not modelled).",
+            "Lean 4 proof (quadratic sort) + proved certificate checker run on every output (log sort) + differential correspondence + oracle"),
+    "C06": ("full",
+            "Lean theorems (C06.k0*, length_*/refs_* for all eleven operators, best_sorted/worst_sorted, tournament_winner(+total), double_winner_size_first/fitness_first, "
+            "roulette_share(+total, length), sus_total/sus_counts (0<r<1)/sus_counts_r0 (boundary draw, F13), lexicase_tol/lexicase_pareto/epsilon_lexicase_tol/lexicase_step_total, "
+            "length_dcd/refs_dcd/dcd_twice/dcd_total) hold for every population, k and tape over exact rationals; model Core/Selection.lean is replayed against deap.tools.sel* and "
+            "emo.selTournamentDCD with the tape of their own random draws (results compared as input indices, identity by `is`), and the statement is evaluated as an oracle on the real "
+            "result incl. population snapshots.",
+            TB + "exact regime: small dyadic fitnesses, roulette/SUS draws j/1024 with S/k dyadic so r*S, S/k, start+i*distance are exact; CPython sorted/max/uniform and numpy.median as "
+            "modelled; inf crowding distance transported as 10^6; SUS count clause assumes the uniform draw is not exactly 0.0 (F13, companion theorem sus_counts_r0).",
+            "Lean 4 proof over a hand-written model + tape-replay differential correspondence + oracle"),
+    "C20": ("partial",
+            "Lean theorems over R/Q for all dimensions, objective counts, tapes and histories: dtlz1_sum (sum f_i = (1+g)/2), dtlz2..6_norm "
+            "(sum f_i^2 = (1+g)^2, DTLZ5/6 on the repaired first objective), zdt1/2/3/4/6_f2 (f2 = g h(f1,g) with the published g), exact optima "
+            "(plane, sphere, cigar, rosenbrock, rastrigin(+scaled,+skew), ackley, bohachevsky, griewank, schaffer, himmelblau(3,2)) and 0 as global "
+            "minimum value for eight of them; trap/inv_trap maxima, royal_road1 = order x #complete blocks, chuang_f1/f2/f3 optimum values with upper "
+            "bounds; bin2float_range/zeros/ones; translate_arg, scale_arg, rotate_arg (inverse contract), noise_adds, bound_id; mp_eval_max, mp_count_inv. "
+            "Published-definition models (Core/Bench*.lean, MovingPeaks.lean) are diffed against deap.benchmarks on dimensions 0..30, 1..7 objectives, "
+            "documented ranges + optima, exhaustive bit strings <= 9/12 bits, recording wrapped functions, and the three moving-peaks scenarios through 50 "
+            "changes on a recorded tape; an independent numpy/Fraction transcription of every formula and the front/decorator/moving-peaks clauses are the oracle.",
+            TB + "partial: theorems are over the reals/rationals; equality of each float function with its definition is a 1e-9 tolerance correspondence "
+            "(IEEE rounding, libm and CPython's compensated sum are not modelled); optima documented to a few decimals (schwefel, three himmelblau minima, "
+            "h1, shekel) are numeric tests; numpy.linalg.inv is a parameter with its inverse contract; a tape must be long enough and well typed for changePeaks to be defined.",
+            "Lean 4 proofs over published-definition models + tolerance correspondence (Float instance) + independent reference-formula oracle"),
 }
 
 NOT_YET = {}
